@@ -1,0 +1,17 @@
+//go:build verif
+// +build verif
+
+package vm
+
+// SimStep, when set (before any run starts; never written afterwards), is
+// called by VM.Run before every instruction is dispatched. It exists only in
+// builds with the "verif" tag and is used by the deterministic simulator in
+// /verif to count steps, to yield to a seeded scheduler and to inject a crash
+// (panic) at a chosen instruction.
+var SimStep func(vm *VM, pp int, op byte)
+
+func (vm *VM) simStep(op byte) {
+	if SimStep != nil {
+		SimStep(vm, vm.pp, op)
+	}
+}
